@@ -426,4 +426,9 @@ def run_graph(expr, env: Env):
                 out[i] = env.convert(v)
             except Unsupported:
                 pass
+        elif isinstance(v, pd.Index) and not isinstance(v, pd.MultiIndex) and v.dtype.kind in "iu":
+            try:
+                out[i] = env.convert(pd.Series(0, index=v)).index  # the labels of a source whose index is concrete (e.g. a parquet dataset)
+            except Unsupported:
+                pass
     return out, it
